@@ -2,9 +2,37 @@
    Statements only; proofs in Proofs/ProdP.v. *)
 From Coq Require Import List NArith Bool.
 From GF Require Import Base.Res Base.Bytes Model.Msg Model.NF Model.NFv5 Model.Packet Model.ProdNF Model.Pipe
-     Proofs.ProdP.
+     Spec.DocTable Spec.DocCheck Proofs.ProdP.
 Import ListNotations.
 Open Scope N_scope.
+
+(* THE DOCUMENTATION TABLE IS IMPLEMENTED.  Spec/DocTable.v is regenerated on every build from docs/protocols.md
+   of the repository under check (bin/gen_doctable.py): one row per column of the field table, with the NetFlow v9
+   and IPFIX element ids the row names.  For EVERY row and EVERY id in it, the element writes that column in that
+   protocol version (Spec/DocCheck.v: the columns an element can write, over probe values of every width).
+   The domain is the table as it stands -- finite, enumerated completely by the kernel's evaluator.  A change of
+   the documentation or of the producer that makes a documented pair false breaks this theorem. *)
+Theorem c08_doc_table_implemented : forallb row_ok doc_rows = true.
+Proof. vm_compute. reflexivity. Qed.
+Print Assumptions c08_doc_table_implemented.
+
+(* what row_ok means for one pair, spelled out *)
+Theorem c08_doc_pair_meaning : forall name ver id, pair_ok name ver id = true ->
+  exists c, col_of_name name = Some c /\
+    exists v m, In v probes /\ nf_field empty_prodcfg ver 1700000000 1000 empty_msg id v = Ok m /\ In c (map fst (cols m)).
+Proof.
+  intros name ver id H. unfold pair_ok in H. destruct (col_of_name name) as [c|]; [|discriminate].
+  exists c. split; [reflexivity|]. apply existsb_exists in H. destruct H as (x & Hin & Hx). apply N.eqb_eq in Hx. subst x.
+  unfold touches in Hin.
+  assert (G : forall l, In c (dedup l) -> In c l).
+  { induction l as [|y r IH]; intros Hc; [exact Hc|]. cbn [dedup fold_right] in Hc. fold (dedup r) in Hc.
+    destruct (existsb (N.eqb y) (dedup r)); [right; apply IH; exact Hc|].
+    destruct Hc as [->|Hc]; [left; reflexivity|right; apply IH; exact Hc]. }
+  apply G in Hin. apply in_flat_map in Hin. destruct Hin as (v & Hv & Hc).
+  destruct (nf_field empty_prodcfg ver 1700000000 1000 empty_msg id v) as [m| | |] eqn:E; try contradiction.
+  exists v, m. repeat split; assumption.
+Qed.
+Print Assumptions c08_doc_pair_meaning.
 
 (* big-endian integers of every encoded width from 1 to 8 bytes are read at full value *)
 Theorem c08_uint_exact : forall b, (length b <= 8)%nat -> wfb b -> dec_unum 64 b = Ok (be b).
